@@ -49,6 +49,8 @@ let table : (string * (z list -> z)) list = [
   ("pivot", judge_pivot);
   ("tu", judge_tu);
   ("regular", judge_regular);
+  ("sp", judge_sp);
+  ("balanced", judge_balanced);
 ]
 
 let () =
